@@ -199,7 +199,15 @@ std::string random_token(Rng& r) {
 // ------------------------------------------------------------------------------------ C27
 void c27_case(Ctx& c, Rng& r) {
     Config cfg = base_config(r);
-    const std::string token = random_token(r);
+    std::string token = random_token(r);
+    if (r.chance(1, 4)) {
+        // long secrets (a hex dump of 128 random bytes is 256 characters): lengths around the powers of two
+        static const std::size_t lens[] = {255, 256, 257, 300, 512, 513, 1024};
+        const auto want = lens[r.below(7)];
+        while (token.size() < want) token += random_token(r);
+        token.resize(want);
+        if (token.back() == ' ') token.back() = 'y';
+    }
     cfg.control_token = token;
     Daemon d(cfg);
     if (!d.port) { c.violation("harness:control:no-port", "{}"); return; }
@@ -216,7 +224,7 @@ void c27_case(Ctx& c, Rng& r) {
     const int nreq = 10;
     for (int q = 0; q < nreq; ++q) {
         const auto cmd = r.below(4);   // 0 STORE, 1 FETCH stream, 2 FETCH out, 3 STOP
-        const auto variant = r.below(9);
+        const auto variant = r.below(11);
         std::optional<std::string> tok;
         const char* vname = "absent";
         switch (variant) {
@@ -228,6 +236,22 @@ void c27_case(Ctx& c, Rng& r) {
             case 5: tok = r.chance(1, 2) ? token + " " : " " + token; vname = "extra-whitespace"; break;
             case 6: tok = ""; vname = "empty"; break;
             case 7: tok = token + token; vname = "doubled"; break;
+            case 9: {
+                // same bytes as far as they go, length off by 1..300 or by a multiple of 256 / 2^k (extended with filler)
+                static const std::size_t extra[] = {1, 2, 255, 256, 257, 512, 768, 1024, 4096, 8192};
+                tok = token + std::string(r.chance(1, 2) ? extra[r.below(10)] : 1 + r.below(300), r.chance(1, 2) ? 'A' : token.back());
+                vname = "suffix-extended";
+                break;
+            }
+            case 10: {
+                // a prefix, any length from empty up to one short; for long secrets also exactly 256 / 512 shorter
+                std::size_t keep = r.below(token.size());
+                if (token.size() > 256 && r.chance(1, 2)) keep = token.size() - 256;
+                if (token.size() > 512 && r.chance(1, 4)) keep = token.size() - 512;
+                tok = token.substr(0, keep);
+                vname = "prefix-any-length";
+                break;
+            }
             default: tok = token; vname = "exact";
         }
         const bool authorised = variant == 8;
